@@ -38,6 +38,9 @@ THEOREMS = {
     "C02_space_any_number_of_cycles": "n save/load cycles of any space return it",
     "C02_space_of_screen": "the space of every constructible screen round-trips for any number of cycles, and from_screen commutes "
                            "with the screen's own round trip",
+    "C02_model_is_source_string_codec": "the translations of the helpers encode_string_array / decode_string_array (size-0 guard, "
+        "np.empty of the same shape, np.char.encode / decode) on 1-d and 2-d arrays are the identity on the strings of EVERY array, "
+        "also one without elements, where numpy's codec alone answers with a float64 array (the defect repaired in 81a412f)",
     "C02_model_is_source_screen_save_h5": "the Gallina translation of the WHOLE method Screen.save_h5, regenerated from /repo's current "
         "data.py on this run (Generated/SrcPersist.v), writes for every screen record a raw HDF5 file (datasets / attributes by name) "
         "which, read back by name (h5_close), is exactly the model's save s: the 14 datasets and the attribute, each under the "
@@ -92,8 +95,12 @@ EXPLANATION = ("Model: Model/Persist.v (save/load/space_save/space_load over Mod
                "changes nothing; f.create_dataset(NAME, data=d[, compression='gzip']) appends dataset NAME holding d (refused if NAME "
                "exists), one primitive per literal NAME of the 14 screen / 5 space datasets with the array kind stored there; "
                "f[NAME][:] = the stored array (KeyError when absent; another kind than expected is an error); f.attrs[NAME] = v / "
-               "f.attrs[NAME] set / read an attribute; encode_string_array / decode_string_array / .astype(str) = the identity on "
-               "the strings (str and bytes arrays are different translator types, so a missing or doubled codec call is refused); "
+               "f.attrs[NAME] set / read an attribute; encode_string_array / decode_string_array are themselves translated (per array "
+               "rank) and their calls run the translations; inside them: arr.size == 0 = the array has no element, "
+               "np.empty(arr.shape, dtype) = the array itself where it has no element (elsewhere refused), np.char.encode(arr) / "
+               "np.char.decode(arr, 'utf-8') = the identity on the strings of an array WITH elements and an error (numpy answers "
+               "with a float64 array) on one without; .astype(str) on a string array = the identity (str and bytes arrays are "
+               "different translator types, so a missing or doubled codec call is refused); "
                "self.<attr> of a Screen = the column of its rows (2-d ones with shape[1]), its id arrays, its control name, its "
                "treatment_mapping / sample_mapping as the tuple of the mapping's columns; m[0], m[1], m[2] = tuple projections; "
                "self.<attr> of an ExperimentSpace likewise; Screen(...) = arrays_screen = mk_screen on the rows zipped from the arrays "
